@@ -55,10 +55,10 @@ ASSUMPTIONS = [
     "CompositeActiveTagValueProvider caches the first value found per category (documented behaviour)",
 ]
 REQUIRED = {"exclude.formula": {"quick": 100000, "thorough": 3000000}, "run_is_not_exclude": 1000,
-            "composite.any_excludes": 1000, "custom.schema": 500, "provider.composite_cache": 50,
+            "composite.any_excludes": 1000, "composite.run_is_not_exclude": 1000, "exclude.bool_value_object_uses_declared_operator": 200, "custom.schema": 500, "provider.composite_cache": 50,
             "provider.lazy_reevaluated": 50, "provider.values_overridden_from_userdata": 100,
             "python.providers": 20, "unknown_or_plain_never_excludes": 1000}
-REQUIRED_SEEN = {"exclude_reason": ["on", "off"], "composite_first_member": ["get_only_object", "dict_like"], "composite_members_given_as": ["list", "tuple", "generator", "filter", "dict_values"], "custom_notation_given_by": ["arguments", "subclass_attributes", "subclass_separator_attribute"]}
+REQUIRED_SEEN = {"bool_current_value": ["canonical", "other"], "exclude_reason": ["on", "off"], "composite_first_member": ["get_only_object", "dict_like"], "composite_members_given_as": ["list", "tuple", "generator", "filter", "dict_values"], "custom_notation_given_by": ["arguments", "subclass_attributes", "subclass_separator_attribute"]}
 EXHAUSTIVE = True
 EXHAUSTIVE_SCOPE = "all tag multisets up to the size bound over the pool x all provider configurations of the grid"
 NSHARDS = {"quick": 8, "thorough": 16}
@@ -336,6 +336,9 @@ def run(spec, mon):
                     got_c = comp.should_exclude_with(texts)
                     want_c = want or ("wip" in texts and "xnot.with_os=linux" in texts)
                     mon.check("composite.any_excludes", got_c == want_c, lambda: dict(case=case, want=want_c, got=got_c))
+                    # the other entry point of the protocol, asked of the composite as well
+                    run_c = comp.should_run_with(texts)
+                    mon.check("composite.run_is_not_exclude", run_c == (not want_c), lambda: dict(case=case, want=not want_c, got=run_c))
                     got_s = strict.should_exclude_with(texts)
                     want_s = ref_exclude(config, tags, ignore_unknown=False)
                     mon.check("strict.unknown_categories", got_s == want_s, lambda: dict(case=case, want=want_s, got=got_s))
@@ -430,6 +433,39 @@ def run(spec, mon):
             mon.seen("composite_first_member", "get_only_object" if k % 2 == 0 and k % 3 != 1 else "dict_like")
         except Exception as ex:
             mon.check("provider.values_overridden_from_userdata", False, dict(error=repr(ex), userdata=userdata))
+
+    # ---- boolean value objects over current values that are not canonical booleans, and with other declared operators:
+    #      the tag word is converted, the current value is handed to the operator AS IT IS ---------------------------------
+    bool_ops = {"eq": operator.eq, "ne": operator.ne, "is": operator.is_, "truthy_agrees": lambda cur, tag: bool(cur) == tag}
+    bool_values = [True, False, 1, 0, 2, 0.5, "yes", "", None, (), (1,)]
+    bool_words = ["yes", "no", "true", "false", "On", "OFF", "maybe", "1", ""]
+    for k in range(60 if tier == "quick" else 1500):
+        opname = rng.choice(sorted(bool_ops))
+        value = rng.choice(bool_values)
+        lazy = bool(k % 3 == 1)
+        try:
+            if opname == "eq" and k % 2:
+                vo = tm.BoolValueObject((lambda v=value: v) if lazy else value)             # (operator left at its default)
+            else:
+                vo = tm.BoolValueObject((lambda v=value: v) if lazy else value, bool_ops[opname])
+            prov = ({"gpu": vo}, tm.ActiveTagValueProvider({"gpu": vo}), tm.CompositeActiveTagValueProvider([{"x": "1"}, {"gpu": vo}]))[k % 3]
+            m = tm.ActiveTagMatcher(prov)
+            rows = []
+            for word in bool_words:
+                lw = word.lower()
+                conv = True if lw in ("true", "yes", "on") else False if lw in ("false", "no", "off") else None
+                hit = False if conv is None else bool(bool_ops[opname](value, conv))
+                for prefix, want in (("use", not hit), ("not", hit), ("only", not hit), ("not_active", hit)):
+                    tags = ["%s.with_gpu=%s" % (prefix, word), "wip"]
+                    rows.append((tags, m.should_exclude_with(tags), want))
+                    rows.append((tags + ["run"], not m.should_run_with(tags), want))
+            case = {"kind": "bool-value-object", "operator": opname, "current_value": repr(value), "lazy": lazy, "provider": type(prov).__name__}
+            mon.case(("bool-value-object", opname, repr(value), lazy, k % 3), True)
+            mon.seen("bool_current_value", "canonical" if value is True or value is False else "other")
+            mon.check("exclude.bool_value_object_uses_declared_operator", all(g == w for _t, g, w in rows),
+                      lambda: dict(case=case, rows=[(t, g, w) for t, g, w in rows if g != w][:6]))
+        except Exception as ex:
+            mon.check("exclude.bool_value_object_uses_declared_operator", False, dict(error=repr(ex), operator=opname, current_value=repr(value)))
 
     # ---- composite provider: first provider wins, value cached, lazy values re-evaluated ------
     for k in range(20 if tier == "quick" else 200):
